@@ -5,6 +5,7 @@ package main
 import (
 	"fmt"
 	"os"
+	"runtime/debug"
 	"time"
 
 	"verif/ev"
@@ -60,6 +61,7 @@ func main() {
 
 func partA(r *ev.Run, u *Universe) {
 	quick := r.Quick()
+	defer debug.SetGCPercent(debug.SetGCPercent(2000)) // tiny live heap, allocation-heavy callee
 	k := u.K
 	aURIs := accountURIs(u)
 	mURIs := methodURIs(u)
